@@ -32,6 +32,11 @@ def gen(rng, tier):
     big = [65535, 65536, 65537] + ([2 ** 24 - 1, 2 ** 24, 2 ** 24 + 1] if tier == "thorough" else [])
     for n in big:
         cases.append(Case("rlp.bytes_rep %d %d" % (n, rng.randrange(256)), tags=("bytes", "big")))
+    # byte strings that look like text (hex digits, 0x…, decimal, base64, blanks): RLP strings are bytes, whatever they spell
+    from vlib import magic
+    for n_ in (1, 2, 20, 32, 55, 56):
+        for b_, tag in magic.text_like(rng, n_):
+            cases.append(Case("rlp.bytes " + hx(b_), tags=("bytes", "text-like")))
     cases.append(Case("rlp.bytes_rep 1 5", tags=("bytes", "big")))
     cases.append(Case("rlp.bytes_rep 1 200", tags=("bytes", "big")))
     cases.append(Case("rlp.uint -", tags=("uint",)))
